@@ -1365,16 +1365,17 @@ void roundTrip(const std::string& key, const std::string& tag, const T& orig, vh
 }
 
 // EclipseState has no operator==; the serialised parts that have one are compared (grid and field properties are
-// documented as distributed separately).  A comparison that THROWS already on (original, original) cannot be
-// evaluated on that object (JFunc::operator== calls the throwing getters: any deck with JFUNC WATER or GAS; see
-// design.d/C11.jfunc-eq.patch) and is only counted; one that throws on (original, copy) alone is a difference.
+// documented as distributed separately).  A comparison that throws - on (original, copy) or already on (original,
+// original), as JFunc::operator== did for every JFUNC WATER / GAS deck before its repair - is a difference: the copy is
+// not "equal under comparison".
 inline long& eqThrowsOnOriginal() { static long n = 0; return n; }
 template <class Part> void cmpPart(const char* name, const Part& a, const Part& b, std::string& parts) {
     try { if (!(a == b)) parts += std::string(" ") + name; }
     catch (const std::exception&) {
         bool self = false;
         try { (void)(a == a); } catch (const std::exception&) { self = true; }
-        if (self) eqThrowsOnOriginal()++; else parts += std::string(" ") + name + "(comparison-throws)";
+        if (self) eqThrowsOnOriginal()++;
+        parts += std::string(" ") + name + (self ? "(comparison-throws-on-original)" : "(comparison-throws)");
     }
 }
 inline bool eclipseStateEqual(const Opm::EclipseState& a, const Opm::EclipseState& b, std::string& detail) {
